@@ -26,6 +26,11 @@
   * The restarting flag (`Global.selection_deferral` installed; it is what the R-bit of OPEN is
     derived from) is set exactly while something is waited for; a machine that reports
     `Completed` is never left installed.
+  * "Selection and advertisement are held back" is judged on what is distributed: at no step —
+    whatever touches the RIB: announcements, withdrawals, a peer going away, a helper's routes being
+    marked stale / LLGR-stale or purged when its session ends, next-hop reachability flipping — is a
+    change distributed for a family that is still held.  Routes whose next hop is unreachable are
+    not eligible and are not part of the release announcement.
   * The start-up step sets the deferral flag of every deferred family and installs the machine.
   * Histories in the property's domain (`wf`): excluded are only the impossible ones: an
     End-of-RIB from a helper that is still waited for but has no established GR session, and a
@@ -49,6 +54,12 @@ structure R where
   timer : Bool := false
   /-- announced paths currently in the RIB: (family, prefix, peer) -/
   rib : List (Fam × Nat × Peer) := []
+  /-- (family, peer): the routes of the peer in the family are kept as a GR helper (marked stale) -/
+  stale : List (Fam × Peer) := []
+  /-- ... as an LLGR helper -/
+  llgr : List (Fam × Peer) := []
+  /-- peers whose next hop is unreachable: their routes are not eligible for selection -/
+  invalid : List Peer := []
   deriving DecidableEq, Repr, Inhabited
 
 /-- configured helpers: the last entry of a peer counts; no families = not a helper -/
@@ -83,6 +94,15 @@ def wf (cfg : Cfg) (r : R) : Ev → Bool
   | .rd .timer => r.waiting.isEmpty || (r.started && (effDur cfg.dur).isSome)
   | _ => true
 
+/-- all routes of `p` in family `f` are removed -/
+def dropRoutes (r : R) (p : Peer) (f : Fam) : R :=
+  { r with rib := r.rib.filter (fun e => !(e.1 = f && e.2.2 = p)) }
+
+/-- the routes of `p` in family `f` (if any) are kept as stale -/
+def markStale (r : R) (p : Peer) (f : Fam) : R :=
+  if r.rib.any (fun e => e.1 = f && e.2.2 = p) && !r.stale.contains (f, p) then { r with stale := (f, p) :: r.stale }
+  else r
+
 /-- the reference bookkeeping (who is waited for, which sessions are up, which routes are in) -/
 def next (r : R) : Ev → R
   | .rd (.est p fams) =>
@@ -94,7 +114,24 @@ def next (r : R) : Ev → R
   | .rd .timer => { r with waiting := [] }
   | .ins p f n => if r.rib.contains (f, n, p) then r else { r with rib := r.rib ++ [(f, n, p)] }
   | .rm p f n => { r with rib := r.rib.filter (· ≠ (f, n, p)) }
-  | .drop p f => { r with rib := r.rib.filter (fun e => !(e.1 = f && e.2.2 = p)) }
+  | .drop p f => dropRoutes r p f
+  | .stale p f => markStale r p f
+  | .llgr p f =>
+      if r.rib.any (fun e => e.1 = f && e.2.2 = p) && !r.llgr.contains (f, p) then { r with llgr := (f, p) :: r.llgr }
+      else r
+  | .purge p f => if r.stale.contains (f, p) then dropRoutes r p f else r
+  | .lpurge p f => if r.llgr.contains (f, p) then dropRoutes r p f else r
+  | .nhv p ok =>
+      if r.invalid.contains p = !ok then r
+      else { r with invalid := if ok then r.invalid.filter (· ≠ p) else p :: r.invalid }
+  | .gdown p =>
+      match upFams r p with
+      | none => r
+      | some gr =>
+          -- the session carried families 0, 1, 2: those with graceful restart are kept, the others go
+          let g := fun (r : R) (f : Fam) => if gr.contains f then markStale r p f else dropRoutes r p f
+          let r3 := g (g (g r 0) 1) 2
+          { r3 with up := r3.up.filter (fun e => e.1 ≠ p) }
 
 /-- families that must be released at the step leading to `r'` -/
 def releasedNow (r r' : R) : List Fam := r.deferred.filter fun f => held r f && !holds f r'.waiting
@@ -144,7 +181,8 @@ def stepOk (cfg : Cfg) (ev : Option Ev) (r r' : R) (o : Obs) : Except String Uni
   else if r.deferred.any (fun f => held r f && !rel.contains f && (!o.flags.contains f || mentions o.outs f)) then
     .error "released-early"
   else if rel.any (fun f => o.flags.contains f) then .error "not-released"
-  else if rel.any (fun f => !exactRelease r'.rib f o.changes) then .error "release-not-exact"
+  else if rel.any (fun f => !exactRelease (r'.rib.filter (fun e => !r'.invalid.contains e.2.2)) f o.changes) then
+    .error "release-not-exact"
   else if r.deferred.any (fun f => r.released.contains f &&
             (mentions o.outs f || ((ev.map isRd).getD true && o.changes.any (·.fam = f)))) then
     .error "released-twice"
